@@ -137,6 +137,8 @@ def project(trace, qdir, tables=None, dbto=b"postmaster@test.example", pfx=b""):
     inj = {}          # pid -> dict(sender, rcpts, n)
     sendpids = set()
     child_of_send = {}  # pid -> info about a bounce qmail-queue run
+    notes_done = {}       # inode of a bounce record -> paragraphs completed so far
+    bounce_app = {}       # inode of a bounce record -> bytes appended so far
     last_bounce_open = None
     pidrole = {}
     framer = repframe.Framer()
@@ -221,6 +223,8 @@ def project(trace, qdir, tables=None, dbto=b"postmaster@test.example", pfx=b""):
             d, n = qpath(e["path"], qdir)
             if d and (e.get("creat") or e.get("trunc")):
                 filedata[e["ino"]] = bytearray()
+                notes_done.pop(e["ino"], None)
+                bounce_app.pop(e["ino"], None)
                 inode_of[(d, n)] = e["ino"]
             if d == "bounce" and is_send and not e.get("creat") and e.get("acc") == 0:
                 last_bounce_open = n
@@ -257,7 +261,18 @@ def project(trace, qdir, tables=None, dbto=b"postmaster@test.example", pfx=b""):
                 buf.extend(b"\0" * (off - len(buf)))
             buf[off:off + len(data)] = data
             if d == "bounce" and is_send:
-                m = re.match(rb"<(.*?)>:\n", data, re.S)
+                # a paragraph may reach the file in several writes (a write that comes up short is continued): the event is the
+                # write that completes a paragraph - "<recipient>:\n", text without empty lines, an empty line
+                app = bounce_app.setdefault(e["ino"], bytearray())      # (the record is only ever appended to)
+                app += data
+                whole = bytes(app)
+                ndone = whole.count(b"\n\n")
+                paras = whole.split(b"\n\n")[:ndone]
+                already = notes_done.get(e["ino"], 0)
+                notes_done[e["ino"]] = max(already, ndone)
+                if ndone <= already:
+                    continue
+                m = re.match(rb"<(.*?)>:\n", paras[already] + b"\n", re.S)
                 na = m.group(1) if m else None
                 if na is not None and pfx:
                     # the record names the recipient without its virtual-domain prefix: map it back to the recipient of THIS
